@@ -61,7 +61,8 @@ Definition over_max (p : params) (role stake : Z) : bool :=
 (* checkAndUpdateTotalPendingStakesOfValidator (delegation_handler.go:167) *)
 Definition check_total_pending (p : params) (s : state) (val : validator) (delta : Z) : option state :=
   let t0 := rec_value (s_recs s) 0 (v_addr val) in
-  let t1 := (if t0 =? 0 then v_token val else t0) + delta in
+  let t := (if t0 =? 0 then v_token val else t0) + delta in
+  let t1 := if t <? 0 then 0 else t in       (* never store a negative total (fix b5e8f5d) *)
   if (0 <? delta) && over_max p (v_role val) (to_stake p t1) then None
   else Some (add_record s 0 (v_addr val) None (Some t1)).
 
@@ -677,11 +678,12 @@ Fixpoint apply_txs (p : params) (s : state) (l : list tx) : state :=
   | t :: r => apply_txs p (match apply_tx p s t with Some s1 => s1 | None => s end) r
   end.
 
-(* A pending record whose FinalValue went negative (checkAndUpdateTotalPending...
-   with a negative delta on a total that handleWithdraw had replaced by the
-   self-token remainder) cannot be RLP-encoded: updateStakingTrie aborts half
-   way through a Go map iteration and the staking trie of the block is no
-   longer a function of the inputs.  The model stops there (finding class). *)
+(* A pending record with a negative FinalValue cannot be RLP-encoded:
+   updateStakingTrie would abort half way through a Go map iteration.  Since fix
+   b5e8f5d (the clamp in checkAndUpdateTotalPendingStakesOfValidator) no handler
+   computes one from non-negative validator tokens: withdraw and delegation-sub
+   check curr >= value, deposit / create / delegation-add only add.  The guard
+   stays because rlp still refuses such a value; no generated history reaches it. *)
 Definition has_negative_record (s : state) : bool := existsb (fun r => r_final r <? 0) (s_recs s).
 
 (* EndBlock (endblock.go:51), sealing path *)
@@ -782,7 +784,8 @@ Fixpoint chain_diff (p : params) (n : Z) (s : state) (i : Z) (l : list (block * 
   | (b, o) :: r =>
     match apply_block p s b, o with
     | Ok s1, Some ob =>
-      match obs_diff (observe n s1) ob with
+      (* field 9: one of the two anomaly counters moved (never expected on a real history) *)
+      match obs_diff (observe n s1) ob ++ (if (g_dupcreate s1 =? 0) && (g_negwd s1 =? 0) then [] else [9]) with
       | [] => chain_diff p n s1 (i + 1) r
       | d => [(i, d)]
       end
